@@ -3,6 +3,7 @@
 package otr3
 
 import (
+	"sync"
 	"crypto/sha256"
 	"encoding/binary"
 	"errors"
@@ -401,7 +402,12 @@ func (w *verifWorld) deliverAll(max int, on func(to int, msg []byte, r verifResu
 // long-term keys, generated once per process from the seed (immutable afterwards, shared by clones)
 var verifKeys = map[string]*DSAPrivateKey{}
 
+var verifKeysMu sync.Mutex
+
 func verifKey(seed int64, name string) *DSAPrivateKey {
+	// checks call this from parallel workers: one key per id, generated once
+	verifKeysMu.Lock()
+	defer verifKeysMu.Unlock()
 	id := fmt.Sprintf("%d/%s", seed, name)
 	if k, ok := verifKeys[id]; ok {
 		return k
